@@ -34,6 +34,27 @@ pub struct QueryPlan {
     inflight_segments: Option<InflightSegments>,
     /// Time-typed fields of the queried event type (None when the schema is unknown, e.g. `*`).
     temporal_fields: Option<HashSet<String>>,
+    /// Text-typed fields (string, enum) of the queried event type (None when the schema is unknown).
+    text_fields: Option<HashSet<String>>,
+}
+
+/// Names of the string / enum fields (also under Optional) of an event type's schema.
+fn text_fields_of(registry: &SchemaRegistry, event_type: &str) -> Option<HashSet<String>> {
+    let schema = registry.get(event_type)?;
+    Some(
+        schema
+            .fields
+            .iter()
+            .filter(|(_, ft)| match ft {
+                FieldType::String | FieldType::Enum(_) => true,
+                FieldType::Optional(inner) => {
+                    matches!(**inner, FieldType::String | FieldType::Enum(_))
+                }
+                _ => false,
+            })
+            .map(|(name, _)| name.clone())
+            .collect(),
+    )
 }
 
 /// Names of the datetime / date fields (also under Optional) of an event type's schema.
@@ -70,11 +91,12 @@ impl QueryPlan {
                 event_type,
                 ..
             } => {
-                let (event_scope, temporal_fields) = {
+                let (event_scope, temporal_fields, text_fields) = {
                     let guard = registry.read().await;
                     (
                         EventScope::from_command(event_type, &guard),
                         temporal_fields_of(&guard, event_type),
+                        text_fields_of(&guard, event_type),
                     )
                 };
                 let event_type_uid = match &event_scope {
@@ -145,6 +167,7 @@ impl QueryPlan {
                     event_scope,
                     inflight_segments,
                     temporal_fields,
+                    text_fields,
                 };
                 // Preload catalogs for discovered segments (best-effort)
                 if let Some(uid) = plan.event_type_uid().await {
@@ -287,12 +310,13 @@ impl QueryPlan {
     }
 
     pub async fn build(command: &Command, registry: Arc<RwLock<SchemaRegistry>>) -> Self {
-        let (event_scope, temporal_fields) = match command {
+        let (event_scope, temporal_fields, text_fields) = match command {
             Command::Query { event_type, .. } => {
                 let guard = registry.read().await;
                 (
                     EventScope::from_command(event_type, &guard),
                     temporal_fields_of(&guard, event_type),
+                    text_fields_of(&guard, event_type),
                 )
             }
             _ => (
@@ -300,6 +324,7 @@ impl QueryPlan {
                     event_type: String::new(),
                     uid: None,
                 },
+                None,
                 None,
             ),
         };
@@ -345,12 +370,18 @@ impl QueryPlan {
             event_scope,
             inflight_segments: None,
             temporal_fields,
+            text_fields,
         }
     }
 
     /// Time-typed fields of the queried event type, when its schema is known.
     pub fn temporal_fields(&self) -> Option<&HashSet<String>> {
         self.temporal_fields.as_ref()
+    }
+
+    /// Text-typed fields of the queried event type, when its schema is known.
+    pub fn text_fields(&self) -> Option<&HashSet<String>> {
+        self.text_fields.as_ref()
     }
 
     pub fn event_scope(&self) -> &EventScope {
